@@ -60,6 +60,19 @@ def c07_runs(tier):
 
 
 PROPS = {
+    "C06": {
+        "engine": "rapidcheck",
+        "technique": "reference-model comparison: independent renderer of every result type and of the response framing, byte-exact against captured write()/flush() calls, over rapidcheck-generated handler scripts and messages",
+        "level": "random tables of query handlers emitting 0..4 items of every result type that succeed, fail silently or raise their own error "
+                 "before/between/after items, command handlers, undefined headers and ill-typed parameters, in messages of 1..6 units, "
+                 "optionally after a previous message on the same context; output bytes, flush count and write/flush order compared",
+        "level_note": "two readings of 'responds' are accepted (a successful query that emits nothing is or is not an empty response unit); "
+                      "bytes written by a handler that later fails form a unit under both; command handlers never emit",
+        "design_ref": "DESIGN.md section 4, C06",
+        "runs": simple("c06", cfgs=("default", "dtostre")),
+        "rule": "case = (handler scripts, one or two messages), distinct by hash; non-trivial = a message of >= 2 units with >= 1 emitting query and >= 1 unit that fails or emits nothing",
+        "assumptions": COMMON_ASSUME + ["the independent item renderer uses printf %g / %.15g for floats (C16 checks those separately)"],
+    },
     "C02": {
         "engine": "rapidcheck",
         "technique": "reference-model comparison over rapidcheck-generated (command table, message) pairs: effective headers computed from the written text, first-match lookup with the independent matcher of C03, compared with the handler/error trace of the real parser",
